@@ -10,7 +10,7 @@ class P(StreamProperty):
     theorems = ['C04_eq', 'C04_order_dup_independent', 'wf_of_check', 'C04_session']
     rule = ('LDPC decoder sessions observed after EVERY of_decode_with_new_symbol call (available source symbols, completion flag, and the '
             "decoder's remaining matrix): all arrival sequences without repetition for n<=6, all subsets x shuffled orders with duplicates for n<=nmax, sampled k up to 2000; "
-            'even N1 (pretend-received null symbol) included; heavy columns (N1 up to n-k) and stars (decoding stuck, then one symbol arrives that leaves >= 5 equations with a single unknown at once);  compared with the transliterated decoder model AND, as the direct oracle, with the peeling closure computed '
+            'even N1 (pretend-received null symbol) included; heavy columns (N1 up to n-k) and stars (decoding stuck, then one symbol arrives that leaves >= 5 equations with a single unknown at once), and staircase walks (n-k up to 700: one call rebuilds more than 256 repair symbols one from another, then the missing source symbol must come out);  compared with the transliterated decoder model AND, as the direct oracle, with the peeling closure computed '
             'independently in Python; non-trivial = distinct (config, arrival sequence)')
 
     def project(self, line, out):
@@ -27,6 +27,8 @@ class P(StreamProperty):
     def oracle(self, c):
         cfg = c.meta['cfg']
         H = c.meta.get('H')
+        if H is not None:
+            H = [set(row) for row in H]
         if H is None:
             H, _ = pyref.rfc5170(cfg.k, cfg.n, cfg.N1, cfg.seed)
         recv = set()
@@ -58,6 +60,45 @@ class P(StreamProperty):
         b += ['release 0']
         c = corr.mk(name, b); c.meta = {'cfg': cfg, 'order': list(order), 'api': 'stream', 'finish': False, 'cb': 'none'}
         return c
+
+    def mk_sparse(self, name, cfg, order, watch):
+        """long arrival sequences: the session is observed only after the calls whose index is in `watch`"""
+        b = ['new 0 3 2', cfg.params_line(0), 'ctrl 0 lastnull', cfg.payload_line(0), 'complete 0', 'sources 0']
+        for idx, e in enumerate(order):
+            b += ['recv 0 %d' % e]
+            if idx in watch: b += ['complete 0', 'sources 0']
+        b += ['release 0']
+        c = corr.mk(name, b); c.meta = {'cfg': cfg, 'order': list(order), 'api': 'stream', 'finish': False, 'cb': 'none'}
+        return c
+
+    def walk_cases(self, rng, count):
+        """staircase walks: every source symbol but one arrives before any repair symbol, a source of equation 0 last, so that this one
+        call rebuilds repair symbols 0 .. q-1 one from another (q = first equation of the missing source, chosen above 256: deep
+        recursion of the iterative decoder); then repair symbol q arrives and the missing source must come out"""
+        out = []
+        tries = 0
+        while len(out) < count and tries < count * 6:
+            tries += 1
+            r = rng.randint(280, 700); k = rng.randint(max(40, r // 3), r + 150)
+            cfg = gens.Cfg('ldpc', k, r, N1=3, seed=rng.randint(1, 2 ** 31 - 2))
+            H, _ = pyref.rfc5170(cfg.k, cfg.n, cfg.N1, cfg.seed)
+            first = {}
+            for ri, row in enumerate(H):
+                for e in row:
+                    if e < k and e not in first: first[e] = ri
+            cand = [e for e in range(k) if first.get(e, 0) > 260]
+            if not cand: continue
+            miss = rng.choice(cand); q = first[miss]
+            eq0 = [e for e in H[0] if e < k and e != miss]
+            if not eq0: continue
+            last = rng.choice(eq0)
+            others = [e for e in range(k) if e not in (miss, last)]; rng.shuffle(others)
+            order = others + [last, k + q]
+            if rng.random() < 0.5: order += [k + rng.randrange(r)]
+            c = self.mk_sparse('w%d' % len(out), cfg, order, watch=set(range(len(others) - 1, len(order))))
+            c.meta['H'] = [sorted(row) for row in H]; c.meta['walk'] = q
+            out.append(c)
+        return out
 
     def cases(self, rng, tier):
         cases = []; i = 0
@@ -92,6 +133,7 @@ class P(StreamProperty):
         # stars: one symbol of column weight >= 5 arrives last while each of its equations has exactly one other unknown
         for j, (cfg, order) in enumerate(gens.star_configs(rng, 30 if tier == 'quick' else 500)):
             cases.append(self.mk('st%d' % j, cfg, order, matrix=(j % 4 == 0)))
+        cases += self.walk_cases(rng, 6 if tier == 'quick' else 60)
         return cases
 
     def extra_stats(self, cases, res):
@@ -112,6 +154,7 @@ class P(StreamProperty):
         outs = common.run_model(lines) if lines else []
         bad = [keys[i] for i, o in enumerate(outs) if o != 'ok wf=1']
         res.cov['matrices_wf_checked'] = len(keys)
+        res.cov['staircase_walk_depths'] = sorted(c.meta['walk'] for c in cases if c.meta.get('walk'))
         res.cov['matrices_not_wf'] = bad[:5]
         if bad:
             res.violation('c04:wf-hypothesis', 'a matrix of this run does not satisfy the well-formedness hypothesis of the C04 theorems: %s' % (bad[0],),
